@@ -158,12 +158,22 @@ theorem distinctColl_sub (now : Int) (c : Coll) (key : String) (f : Val) :
   · rename_i c1 e h; rw [h] at this; exact this
   · rename_i c1 ms h; rw [h] at this; exact this
 
+/-- a refused creation only ran the expiry pass -/
+theorem refusedCreate_sub (now : Int) (c : Coll) (ix : Index) :
+    Sub (refusedCreate now c ix) c := by
+  unfold refusedCreate
+  split
+  · split
+    · rename_i c1 h; exact expire_sub now c c1 h
+    · exact Sub.refl _
+  · exact Sub.refl _
+
 theorem createIndexColl_go_sub (now : Int) (c : Coll) (ix : Index) :
     Sub (createIndexColl.go now c ix).1 c := by
   unfold createIndexColl.go
   simp only
   split
-  · exact Sub.refl _
+  · exact refusedCreate_sub now c ix
   · rename_i c1 hpre
     have hc1 : Sub c1 c := by
       split at hpre
